@@ -23,5 +23,12 @@ CONFIG = dict(
         "declared units are attached only where the conversion ratio is 1 (native unit None or the same unit); other ratios are property C19",
         "the macro's token generation and rustc's trait resolution are exercised by compiling generated programs, not proved",
     ],
-    explanation="placeholder",
+    explanation="Theorems (for every Inflector, every metric type tree of any depth and every value): const concatenation = concatenation for "
+                "every length; the operational denotation of the macro + type-level NameStyle machinery (four pre-inflected strings, style "
+                "selector, prefix chain as concatenation tree, const_str_value) writes exactly the rows of the declarative naming function "
+                "from the documentation; one EntryWriter call per non-ignored field; absent Options contribute nothing; declared units; "
+                "Cow kind; sample groups (partial for the code as it is, full for the proposed repair, refutation witness pinned). "
+                "Correspondence: generated #[metrics] programs (exhaustive attribute grid + random trees) compiled with the repository's macro "
+                "and run, observed through a recording EntryWriter and sample_group(), compared with the mechanism model and with the "
+                "specification predicates; Inflector model vs the real crate on >1e5 strings; Concatenated<..> trees vs concat model.",
 )
